@@ -991,3 +991,114 @@ Proof.
   - apply (pathS _ 0 0 0 1); [constructor | vm_compute; auto].
   - vm_compute. auto.
 Qed.
+
+(* ------------------------------------------------------------------ served_ok is needed (audit F1)
+   A descriptor that carries fields which are not the manifest's (e.g. the annotations /
+   artifactType of the index entry pointing to it, as a reloaded OCI layout served them
+   before fix fda86b1) is judged on those fields: the filters do not fetch then. *)
+Definition embedded_source : source :=
+  mkSource (fun x => match x with
+                     | 0 => [mkDesc 1 (b "application/vnd.fake.type")
+                                    (Some [(b "vnd.docker.reference.type", b "attestation-manifest")])]
+                     | _ => [] end)
+           (fun x => match x with 1 => KImage | _ => KOther end)
+           (fun _ => [])
+           (fun x => match x with 1 => b "application/vnd.oci.image.config.v1+json" | _ => [] end)
+           (fun _ => None) false.
+
+Lemma filter_exact_refuted_embedded :
+  let keyf := [FAnn (b "vnd.docker.reference.type") None] in
+  let typf := [FArt (Some (str_eqb (b "application/vnd.oci.image.config.v1+json")))] in
+  ~ Forall (served_ok embedded_source) (s_preds embedded_source 0) /\
+  map d_id (find_preds embedded_source keyf 0) = [1] /\
+  List.filter (fun id => forallb (fun f => keep_spec embedded_source f id) keyf)
+              (map d_id (s_preds embedded_source 0)) = [] /\
+  map d_id (find_preds embedded_source typf 0) = [] /\
+  List.filter (fun id => forallb (fun f => keep_spec embedded_source f id) typf)
+              (map d_id (s_preds embedded_source 0)) = [1].
+Proof.
+  split; [|vm_compute; repeat split].
+  intro H. inversion H as [|p l Hp _]; subst. destruct Hp as ((Ha & _) & _).
+  destruct Ha as [Ha | Ha]; vm_compute in Ha; discriminate.
+Qed.
+
+(* ------------------------------------------------------------------ composed statement (audit F6)
+   The upward closure in terms of MANIFEST CONTENT only: y is followed from x iff the source
+   lists y as a predecessor of x and y's manifest satisfies every filter. *)
+Definition followed_spec (s : source) (fs : list filter) (x y : nat) : Prop :=
+  In y (map d_id (s_preds s x)) /\ forall f, In f fs -> keep_spec s f y = true.
+
+Inductive rpath (R : nat -> nat -> Prop) : nat -> nat -> nat -> Prop :=
+| rpath0 x : rpath R 0 x x
+| rpathS k x y z : rpath R k x y -> R y z -> rpath R (S k) x z.
+
+Definition anc_spec (s : source) (fs : list filter) (a c : nat) : Prop :=
+  exists k, rpath (followed_spec s fs) k a c.
+
+Definition all_served_ok (s : source) : Prop := forall x, Forall (served_ok s) (s_preds s x).
+
+Lemma E_followed_spec s fs x y :
+  all_served_ok s -> (E (find_preds s fs) x y <-> followed_spec s fs x y).
+Proof. intro H. unfold E, followed_spec. apply find_preds_followed_iff. apply H. Qed.
+
+Lemma path_rpath s fs k a c :
+  all_served_ok s -> (path (find_preds s fs) k a c <-> rpath (followed_spec s fs) k a c).
+Proof.
+  intro H. split; intro P.
+  - induction P; [constructor | econstructor; eauto; now apply E_followed_spec].
+  - induction P; [constructor | econstructor; eauto; now apply E_followed_spec].
+Qed.
+
+Lemma anc_anc_spec s fs a c : all_served_ok s -> (anc s fs a c <-> anc_spec s fs a c).
+Proof.
+  intro H. unfold anc, reach, anc_spec. split; intros (k & P); exists k; now apply path_rpath.
+Qed.
+
+Lemma find_preds_nil_spec s fs x :
+  all_served_ok s -> (find_preds s fs x = [] <-> forall y, ~ followed_spec s fs x y).
+Proof.
+  intro H. split.
+  - intros E0 y Hy. apply E_followed_spec in Hy; auto. unfold E in Hy. rewrite E0 in Hy. contradiction.
+  - intro Hn. destruct (find_preds s fs x) as [|p l] eqn:Ep; auto.
+    exfalso. apply (Hn (d_id p)). apply E_followed_spec; auto. unfold E. rewrite Ep. left. reflexivity.
+Qed.
+
+(* Depth <= 0, any filter stack: the roots are exactly the tops of the upward closure taken
+   through predecessors whose manifest content satisfies the filters, and every member of that
+   closure lies under a root *)
+Lemma find_roots_unlimited_by_content s fs rank limit node fuel roots :
+  all_served_ok s -> acyclic_source s rank -> (limit <= 0)%Z ->
+  find_roots fuel s fs limit node = Some roots ->
+  (forall r, In r roots ->
+     anc_spec s fs (d_id node) (d_id r) /\ forall y, ~ followed_spec s fs (d_id r) y) /\
+  (forall a, anc_spec s fs (d_id node) a -> (forall y, ~ followed_spec s fs a y) -> In a (map d_id roots)) /\
+  (forall a, anc_spec s fs (d_id node) a -> exists r, In r roots /\ anc_spec s fs a (d_id r)).
+Proof.
+  intros Hok Hac Hl Hf.
+  destruct (find_roots_unlimited s fs rank limit node fuel roots Hac Hl Hf) as (H1 & H2 & H3).
+  repeat split.
+  - apply anc_anc_spec; auto. now apply H1.
+  - apply find_preds_nil_spec; auto. now apply H1.
+  - intros a Ha Hn. apply H2; [now apply anc_anc_spec | now apply find_preds_nil_spec].
+  - intros a Ha. destruct (H3 a) as (r & Hr & Hra); [now apply anc_anc_spec|].
+    exists r. split; auto. now apply anc_anc_spec.
+Qed.
+
+(* Depth = d > 0 in the same terms *)
+Lemma find_roots_depth_by_content s fs rank limit node fuel roots :
+  all_served_ok s -> acyclic_source s rank -> (0 < limit)%Z ->
+  find_roots fuel s fs limit node = Some roots ->
+  (forall r, In r roots ->
+     exists k, (Z.of_nat k <= limit)%Z /\ rpath (followed_spec s fs) k (d_id node) (d_id r)) /\
+  (exists r, In r roots /\ anc_spec s fs (d_id node) (d_id r)).
+Proof.
+  intros Hok Hac Hl Hf.
+  destruct (find_roots_depth s fs rank limit node fuel roots Hac Hl Hf) as (H1 & (r & Hr & Hnr)).
+  split.
+  - intros r' Hr'. destruct (H1 r' Hr') as ((k & Hk & Hp) & _). exists k. split; auto.
+    now apply path_rpath.
+  - exists r. split; auto. now apply anc_anc_spec.
+Qed.
+
+Lemma ex_all_served_ok : all_served_ok ex_source.
+Proof. exact ex_served_ok. Qed.
